@@ -518,7 +518,9 @@ func (s *state) removeHandler(cc *grpc.ClientConn) bool {
 		}
 		if len(hds) == 0 {
 			delete(s.handlers, name)
-			s.path.delRule(name)
+			// delRule removes one binding per call: remove them all.
+			for s.path.delRule(name) {
+			}
 		} else {
 			s.handlers[name] = hds
 		}
